@@ -2,7 +2,8 @@
 """C05 implementation-side harness (run with PYTHONPATH=<repo>/src): evaluates the ORIGINAL Python functions that
 tools/translators/gen_c05.py translates, so that the check can compare them with the translated Gallina (translator self-test).
 
-stdin : {"b2b": [n, ...], "fit": [w, ...], "lit": [[unsigned, w, value], ...], "flt": [[w, num, den], ...], "lang": "c"|"cpp"}
+stdin : {"b2b": [n, ...], "fit": [w, ...], "lit": [[unsigned, w, value], ...], "flt": [[w, num, den], ...],
+         "sto": [[kind b|u|s|f|v, w, cast mode s|t], ...], "lang": "c"|"cpp"}
 stdout: {"b2b": ["<n>"|"none"], "fit": [...], "lit": ["<token>"], "flt": ["<full rendered literal>"], "cast_format": "..."}"""
 import fractions
 import json
@@ -35,6 +36,28 @@ def main() -> int:
         out['std'].append(str(filter_to_standard_bit_length(ty)))
     for w, n, d in req.get('flt', []):
         out['flt'].append(filter_literal(lang, fractions.Fraction(int(n), int(d)), pydsdl.FloatType(w, sat)))
+    if req.get('lang', 'c') == 'cpp':
+        from nunavut.lang.cpp import filter_type_from_primitive
+    else:
+        from nunavut.lang.c import filter_type_from_primitive
+    trunc = pydsdl.PrimitiveType.CastMode.TRUNCATED
+    out['sto'] = []
+    for kind, w, cm in req.get('sto', []):
+        mode = sat if cm == 's' else trunc
+        try:
+            ty = {'b': lambda: pydsdl.BooleanType(), 'u': lambda: pydsdl.UnsignedIntegerType(w, mode),
+                  's': lambda: pydsdl.SignedIntegerType(w, sat), 'f': lambda: pydsdl.FloatType(w, mode), 'v': lambda: pydsdl.VoidType(w)}[kind]()
+        except TypeError:
+            ty = pydsdl.BooleanType(mode)
+        try:
+            name = filter_type_from_primitive(lang, ty)
+        except RuntimeError:
+            name = 'none'
+        try:
+            s = '1' if DSDLCodeGenerator.is_saturated(ty) else '0'
+        except TypeError:
+            s = 'none'
+        out['sto'].append('%s sat=%s' % (name, s))
     json.dump(out, sys.stdout)
     return 0
 
